@@ -80,6 +80,10 @@ CHECKS = {
   "text": "Scoped to the schedule / time facets: seeded search over a fixed table of (forwarded operation, value) pairs - every forwarded dunder and attribute / method access, including pairs for which the operation raises - and the non-forwarded operations (bool, repr, str, ==, hash, unknown dunder lookups), applied to f_proxy(f) with f resolved, failed, or pending and resolved by another thread at a scheduler-chosen point, with and without timeout=tau; and f_nocancel wrappers raced by repeated cancel() and the inner completion. Oracles: same value or exception type as the operation on f.result(), f's own exception if it failed, blocking until resolution, TimeoutError at t0+tau (never earlier, within 5 ms in virtual time), non-forwarded operations return without virtual time passing, f_nocancel.cancel() always False with 0 cancels reaching f and the wrapper mirroring f's outcome.",
   "note": "'for all operand values across the builtin types' is an input-space claim: the table samples it and is not presented as coverage of it.",
   "design": "10 (C17)"},
+ "C19": {
+  "text": "Differential use of the simulator: seeded search over with_* chains (0-4 layers of any type, explicit / inherited names), applied to the executor and - split at a drawn point - before and after bind(fn) / flat_bind(fn), over fresh sync / thread-pool bases, with plain functions, partials and callable objects with scripted failures, in the same simulated run. Oracles: same terminal outcome and invocation count on both sides, flat_bind flattens, and every thread created by a layer (observed at the Thread seam) carries the inherited or overridden name on both sides, as does the thread pool's prefix.",
+  "note": "Mostly a programs x inputs property; no schedule-dependent claim is made beyond exact repeatable comparison for chains with worker threads and timers, and the thread-name observation point.",
+  "design": "10 (C19)"},
 }
 def main():
     checks = []
